@@ -215,6 +215,15 @@ def run(ctx):
                 return "two identical type declarations in a module whose types were all requested implicitly"
         return None
 
+    # every generated type method once (implicitly), then once more, in one history: any two methods that emit the same declaration for
+    # different requests share an id here, and the second round must return the first round's ids and add nothing
+    for k in range(4 if ctx.tier == "quick" else 40):
+        tc = type_calls(T, rnd, [1, 2, 3])
+        rnd.shuffle(tc)
+        once = [name + "".join("/" + ("-" if a is None else a) for a in args) for name, args in tc]
+        r = "build " + " ".join(once + (once if k % 2 == 0 else once[::-1]) + ["id"])
+        reqs.append(r)
+        meta[r] = (1, True)
     # ids handed out are never taken back: an instruction holding the latest id is popped (and possibly re-inserted), then more ids are
     # requested
     for start in (None, 9, 1000):
